@@ -98,7 +98,11 @@ func init() {
 						ref.TsSkewUs = p64(us(big))
 					}
 				case 1:
-					ref.TsSkewUs = p64(us(big) + int64(r.Pick(0, 1000000)))
+					extra := int64(r.Pick(0, 1000000))
+					if big < 0 {
+						extra = -extra
+					}
+					ref.TsSkewUs = p64(us(big) + extra)
 					ref.KeySkewUs = p64(0)
 				default:
 					if mode == "client" {
@@ -111,6 +115,9 @@ func init() {
 				// a stamp in the future by exactly 2 min may age into tolerance: keep clear of that
 				if ref.TsSkewUs != nil && *ref.TsSkewUs > 0 && *ref.TsSkewUs < us(2*time.Minute+2*margin) {
 					*ref.TsSkewUs = us(2*time.Minute + 2*margin)
+				}
+				if ref.TsSkewUs == nil && ref.SkewUs > 0 && ref.SkewUs < us(2*time.Minute+2*margin) {
+					ref.SkewUs = us(2*time.Minute + 2*margin)
 				}
 				s.Profile = "c08-refuse-" + mode + "-" + tr
 			}
